@@ -191,6 +191,9 @@ def op(cfg):
 """))
     if "ccw" in cfg:
         s.append(ccw_theorem(cfg, F, allE, newE))
+    if "ft" in cfg:
+        s.append(ft_theorem(cfg, F, allE, newE))
+    s.append(vb_theorem(cfg, F))
     s.append("end St\nend Spade\n")
     hdr = HEADER.replace("import Spade.Proofs.LinkInv.Base", "import Spade.Proofs.CcwBase") if "ccw" in cfg else HEADER
     open(os.path.join(OUT, cfg["file"] + ".lean"), "w").write(hdr + "\n".join(s))
@@ -257,6 +260,100 @@ def ccw_theorem(cfg, F, allE, newE):
     evw [{F}, {", ".join(f"t_{i}" for i in range(nT))}, hin, hi0, hlt, y1, y2, y3, y4, y5, y6, y7]
     intro hfx
     grind (splits := 40)
+""")
+    return "\n".join(out)
+
+def vb_theorem(cfg, F):
+    """the operation keeps every `out_edge` entry in range"""
+    import re
+    core = cfg["core"]
+    m = re.search(r"theorem LInv\.(\w+) \{s : St\} \(hs : LInv s\)(.*?):\n    LInv \((.*)\)\s*$", cfg["sig"], re.S)
+    name, binders, callfull = m.group(1), m.group(2), m.group(3)
+    callq = re.sub(r"^(\w+) s ", r"St.\1 s ", callfull)
+    call = cfg["call"]
+    gv, ge, gf = cfg["grows"]
+    ninstr = cfg["defs"].split("s.run [")[1].split("]")[0].count(".pushEdge") + len(re.findall(r"\.(next|prev|face|origin|he|vout|fadj|pushFace|pushVertex) ", cfg["defs"].split("s.run [")[1].split("]\n")[0]))
+    out = []
+    out.append("set_option maxHeartbeats 4000000 in")
+    out.append(f"theorem LInv.{name}_vb {{s : St}} (hs : LInv s) (hvb : s.VBound){binders.rstrip()} :")
+    out.append(f"    ({callq}).VBound := by")
+    out.append("  have ev0 := hs.even")
+    out.append(cfg["setup"])
+    out.append(prelude(cfg["old"]))
+    out.append(f"""  have szE : ({call}).nE = s.nE + {ge} := by unfold St.{core}; evw [{F}]
+  unfold St.{core} at szE ⊢
+  refine vbound_run s _ hvb (s.nE + {ge}) szE (by omega) ?_
+  intro i hi
+  simp only [List.mem_cons, List.not_mem_nil, or_false] at hi
+  rcases hi with {" | ".join(["rfl"] * ninstr)} <;> simp only [Instr.argOK] <;> omega
+""")
+    return "\n".join(out)
+
+def ft_theorem(cfg, F, allE, newE):
+    """third theorem of the file: the operation keeps `FaceTriples` (the anchor of every inner face
+    is one of its three half-edges)"""
+    import re
+    c = cfg["ft"]
+    core = cfg["core"]
+    old = cfg["old"]
+    m = re.search(r"theorem LInv\.(\w+) \{s : St\} \(hs : LInv s\)(.*?):\n    LInv \((.*)\)\s*$", cfg["sig"], re.S)
+    name, binders, callfull = m.group(1), m.group(2), m.group(3)
+    call = cfg["call"]
+    T = old
+    TN = cfg.get("TN", old); TP = cfg.get("TP", old); TF = cfg.get("TF", old)
+    FT = cfg["FT"]
+    newF = [("s.nF" if k == 0 else f"s.nF + {k}") for k in range(cfg["newF"])]
+    gv, ge, gf = cfg["grows"]
+    memT = "simp only [List.mem_cons, List.not_mem_nil, or_false] at hx ⊢"
+    def sub(lst):
+        if len(lst) == 0:
+            return "  · intro x hx; exact absurd hx (by simp)"
+        if len(lst) == 1:
+            return f"  · intro x hx\n    {memT}\n    subst hx; simp"
+        return f"  · intro x hx\n    {memT}\n    rcases hx with {pat(len(lst))} <;> subst h <;> simp"
+    def fr(lst):
+        return f"""  · intro i hi hT
+    simp only [List.mem_cons, List.not_mem_nil, or_false, not_or] at hT
+    have hin : ∀ k, i ≠ s.nE + k := by intro k; omega
+    have hik : ∀ k, i < s.nE + k := by intro k; omega
+    have hi0 : i ≠ s.nE := by omega
+    unfold St.{core}
+    evw [{F}, hT, hin, hik, hi0, hi]"""
+    out = []
+    out.append("set_option maxHeartbeats 4000000 in")
+    out.append(f"/-- {c['doc']} -/")
+    callq = re.sub(r"^(\w+) s ", r"St.\1 s ", callfull)
+    out.append(f"theorem LInv.{name}_ft {{s : St}} (hs : LInv s) (hft3 : s.FaceTriples){binders.rstrip()} :")
+    out.append(f"    ({callq}).FaceTriples := by")
+    out.append("  have ev0 := hs.even")
+    out.append(cfg["setup"])
+    out.append(prelude(old))
+    out.append(f"""  have szE : ({call}).nE = s.nE + {ge} := by unfold St.{core}; evw [{F}]
+  have szF : ({call}).nF = s.nF + {gf} := by unfold St.{core}; evw [{F}]
+  apply hs.faceTriples_of_local hft3 [{", ".join(T)}] [{", ".join(TN)}] [{", ".join(TP)}] [{", ".join(TF)}] [{", ".join(FT)}]
+  · omega
+{sub(TN)}
+{sub(TP)}
+{sub(TF)}
+{fr(TN)}
+{fr(TP)}
+{fr(TF)}
+  · intro f h0 hf hF
+    simp only [List.mem_cons, List.not_mem_nil, or_false, not_or] at hF
+    have hfn : ∀ k, f ≠ s.nF + k := by intro k; omega
+    have hf0 : f ≠ s.nF := by omega
+    have hfz : f ≠ 0 := by omega
+    unfold St.{core}; evw [{F}, hfn, hf0, hfz, hF] <;> grind
+{c["hFTall"]}
+  · intro x hx hc hfx
+    have hx' : {ors(allE, "x")} := by
+      rcases hc with h | h
+      · simp only [List.mem_cons, List.not_mem_nil, or_false] at h <;> omega
+      · omega
+    unfold St.{core} at hfx ⊢
+    unfold EdgeOK dst at *
+{c.get("check_pre", "")}    rcases hx' with {pat(len(allE))} <;> subst h
+    all_goals (revert hfx; evw [{F}{cfg.get("sem", "")}{c.get("facts", "")}]; intro hfx; grind (splits := 40))
 """)
     return "\n".join(out)
 
@@ -382,6 +479,28 @@ theorem LInv.seCore {s : St} (hs : LInv s) (e0 : Nat) (p : Pt) (d : Nat) (b_0 : 
   """ + dpairs(["e0", "en", "ep", "t0", "tn", "tp"]),
         facts=", hv_en, hv_ep, hv_tn, hv_tp, ho_en, ho_tn",
     ),
+    ft=dict(
+        doc="`split_edge` keeps the anchor of every inner face on the face",
+        hFTall="""  · intro g hg hfg hmem
+    simp only [List.mem_cons, List.not_mem_nil, or_false] at hmem ⊢
+    rcases hmem with hm | hm
+    · have := hs.same_face_cycle hft3 b_0 hg hfe0 hm
+      rw [hen, hep] at this
+      rcases this with h | h | h <;> simp [h]
+    · have := hs.same_face_cycle hft3 b_3 hg hft0 hm
+      rw [htn, htp] at this
+      rcases this with h | h | h <;> simp [h]""",
+        check_pre="""    have hq : s.fc e0 ≠ s.fc t0 := by
+      intro h
+      have := hs.same_face_cycle hft3 b_0 b_3 hfe0 h.symm
+      rw [hen, hep] at this
+      rcases this with h' | h' | h'
+      · exact d_0_3 h'.symm
+      · exact d_1_3 h'.symm
+      · exact d_2_3 h'.symm
+""",
+        facts=", fb1, fb2, hq, hq.symm",
+    ),
 )
 
 TRIANGLE = dict(
@@ -452,6 +571,15 @@ theorem LInv.itCore {s : St} (hs : LInv s) (f0 : Nat) (p : Pt) (d : Nat) (hf0 : 
   rw [a3]
   generalize he2 : s.prv e0 = e2 at *""",
         facts=", hv0, hv1, hv2",
+    ),
+    ft=dict(
+        doc="`insert_into_triangle` keeps the anchor of every inner face on the face",
+        hFTall="""  · intro g hg hfg hmem
+    simp only [List.mem_cons, List.not_mem_nil, or_false] at hmem ⊢
+    have := hs.same_face_cycle hft3 b_0 hg hfc0 (by rw [hmem, hfc])
+    rw [he1, he2] at this
+    exact this""",
+        facts=", hf, hfc",
     ),
 )
 
@@ -558,6 +686,15 @@ theorem LInv.shCore {s : St} (hs : LInv s) (e0 : Nat) (p : Pt) (d : Nat) (b_0 : 
   """ + dpairs(["e0", "en", "ep", "tw", "tq"]),
         facts=", hv_en, hv_ep, ho_en",
     ),
+    ft=dict(
+        doc="`split_half_edge` keeps the anchor of every inner face on the face",
+        hFTall="""  · intro g hg hfg hmem
+    simp only [List.mem_cons, List.not_mem_nil, or_false] at hmem ⊢
+    have := hs.same_face_cycle hft3 b_0 hg hfe0 hmem
+    rw [hen, hep] at this
+    rcases this with h | h | h <;> simp [h]""",
+        facts=", fb1, hft0, c8",
+    ),
 )
 
 CREATE_FACE = dict(
@@ -633,6 +770,14 @@ theorem LInv.cnCore {s : St} (hs : LInv s) (e0 : Nat) (p : Pt) (d : Nat) (b_0 : 
   have d_0_1 : e0 ≠ en := by unfold EdgeOK dst at *; grind
   have d_0_2 : e0 ≠ ep := by unfold EdgeOK dst at *; grind""",
         facts=", hfc, f1, f2",
+    ),
+    ft=dict(
+        doc="`create_new_face_adjacent_to_edge` keeps the anchor of every inner face on the face",
+        hFTall="""  · intro g hg hfg hmem
+    simp only [List.mem_cons, List.not_mem_nil, or_false] at hmem
+    exact absurd (hmem.trans hfc) hfg""",
+        check_pre="    have hq' : (ep = en) = (en = ep) := propext eq_comm\n    by_cases hq : en = ep <;>\n",
+        facts=", hfc, f1, f2, fb1, hq', hq",
     ),
 )
 
@@ -730,6 +875,13 @@ theorem LInv.csCore {s : St} (hs : LInv s) (e0 : Nat) (p0 : Unit) (b_0 : e0 < s.
   have d_1_2 : en ≠ ep := by unfold EdgeOK dst at *; grind
   have d_1_3 : en ≠ nn := by unfold EdgeOK dst at *; grind""",
         facts=", hfc, f1, f2, f3, ho_en",
+    ),
+    ft=dict(
+        doc="`create_single_face_between_edge_and_next` keeps the anchor of every inner face on the face",
+        hFTall="""  · intro g hg hfg hmem
+    exact absurd hmem (by simp)""",
+        check_pre="    have hq' : (nn = ep) = (ep = nn) := propext eq_comm\n    by_cases hq : ep = nn <;>\n",
+        facts=", hfc, f1, f2, f3, hq', hq",
     ),
 )
 
